@@ -1,5 +1,6 @@
 import XmppModel.Prelude.Hex
 import XmppModel.Model.StartTLS
+import XmppModel.Model.StartTLSProbe
 /-! Driver module for C02 (line protocol: see harness/c02/c02.go). -/
 namespace XmppModel.Driver.C02
 open XmppModel XmppModel.StartTLS
@@ -103,8 +104,7 @@ def handle (args : List String) : Option String :=
     let oracle ← mapM? parseOracle (splitList oracle)
     let cfg : Cfg := { tee := tee != 0, rr := rr, rt := rt, sk := sk, others := others }
     let inp : Input := { clear := clear, prot := prot, oracle := oracle }
-    let conn ← (if kind == 0 then some ConnKind.netConn else if kind == 1 then some .plainRW
-      else if kind == 2 then some .stateMethod else if kind == 3 then some (.tlsConn (.dom domain)) else none)
+    let conn ← connKindOfCode domain kind
     let env : Env := { domain := domain, remote := remote, captured := if explicit then some .explicit else none,
                        conn := conn }
     let r := run cfg env st0 inp (4 * unitCount inp + 8)
